@@ -368,10 +368,29 @@ func envPickler(x starlark.Value) (module, name string, args starlark.Tuple, err
 		return "dawn", "FunctionCode", starlark.Tuple{module, globals, starlark.Bytes(x.Bytecode())}, nil
 	case *starlark.Function:
 		defaults, freevars := x.Env()
-		return "dawn", "Function", starlark.Tuple{defaults, freevars, x.Code()}, nil
+		return "dawn", "Function", starlark.Tuple{envPairs(defaults), envPairs(freevars), x.Code()}, nil
 	default:
 		return "", "", nil, pickle.ErrCannotPickle
 	}
+}
+
+// envPairs replaces what is not a value in a list of (name, value) pairs: the interpreter's
+// marker for a keyword-only parameter without a default, and the missing value of a free
+// variable that is never assigned.
+func envPairs(pairs starlark.Tuple) starlark.Tuple {
+	for i, p := range pairs {
+		pair, ok := p.(starlark.Tuple)
+		if !ok || len(pair) != 2 {
+			continue
+		}
+		switch {
+		case pair[1] == nil:
+			pairs[i] = starlark.Tuple{pair[0], starlark.String("<unassigned>")}
+		case pair[1].Type() == "mandatory":
+			pairs[i] = starlark.Tuple{pair[0], starlark.String("<mandatory>")}
+		}
+	}
+	return pairs
 }
 
 // envUnpickler provides support for unpickling functions and modules.
